@@ -36,6 +36,14 @@ SOFTWARE.
 #define CAT_WRITE_STATE_MAIN_BUFFER (1U)
 #define CAT_WRITE_STATE_AFTER (2U)
 
+/* verification hooks: expand to nothing unless built with MARCINBOR85_CAT_VERIF */
+#ifdef MARCINBOR85_CAT_VERIF
+#include "cat_verif_hooks.h"
+#else
+#define CAT_VERIF_LOOP(id)
+#define CAT_VERIF_GHOST(id)
+#endif
+
 static inline char* get_atcmd_buf(struct cat_object *self)
 {
         return (char*)self->desc->buf;
@@ -139,7 +147,7 @@ static bool is_variables_access_possible(struct cat_object *self, const struct c
                 return false;
 
         ok = false;
-        for (i = 0; i < cmd->var_num; i++) {
+        for (i = 0; i < cmd->var_num; i++) CAT_VERIF_LOOP(is_variables_access_possible) {
                 var = &cmd->var[i];
                 if ((var->access == CAT_VAR_ACCESS_READ_WRITE) || (var->access == access)) {
                         ok = true;
@@ -268,7 +276,7 @@ cat_status cat_is_unsolicited_event_buffered(struct cat_object *self, struct cat
         if ((self->unsolicited_fsm.cmd == cmd) && ((type == CAT_CMD_TYPE_NONE) || (self->unsolicited_fsm.cmd_type == type)))
                 ret =  CAT_STATUS_BUSY;
 
-        while ((num > 0) && (ret == CAT_STATUS_OK)) {
+        while ((num > 0) && (ret == CAT_STATUS_OK)) CAT_VERIF_LOOP(cat_is_unsolicited_event_buffered) {
                 item = &self->unsolicited_fsm.unsolicited_cmd_buffer[index];
                 if ((item->cmd == cmd) && ((type == CAT_CMD_TYPE_NONE) || (item->type == type)))
                         ret = CAT_STATUS_BUSY;
@@ -428,7 +436,7 @@ static struct cat_command const* get_command_by_index(struct cat_object *self, s
         assert(index < self->commands_num);
 
         j = 0;
-        for (i = 0; i < self->desc->cmd_group_num; i++) {
+        for (i = 0; i < self->desc->cmd_group_num; i++) CAT_VERIF_LOOP(get_command_by_index) {
                 cmd_group = self->desc->cmd_group[i];
 
                 if (index >= j + cmd_group->cmd_num) {
@@ -464,7 +472,7 @@ void cat_init(struct cat_object *self, const struct cat_descriptor *desc, const 
         assert(desc->cmd_group_num > 0);
 
         self->commands_num = 0;
-        for (i = 0; i < desc->cmd_group_num; i++) {
+        for (i = 0; i < desc->cmd_group_num; i++) CAT_VERIF_LOOP(cat_init_groups) {
                 cmd_group = desc->cmd_group[i];
 
                 assert(cmd_group->cmd != NULL);
@@ -472,7 +480,7 @@ void cat_init(struct cat_object *self, const struct cat_descriptor *desc, const 
 
                 self->commands_num += cmd_group->cmd_num;
 
-                for (j = 0; j < cmd_group->cmd_num; j++) {
+                for (j = 0; j < cmd_group->cmd_num; j++) CAT_VERIF_LOOP(cat_init_cmds) {
                         assert(cmd_group->cmd[j].name != NULL);
                         if (cmd_group->cmd[j].implicit_write != false) {
                                 assert(cmd_group->cmd[j].read == NULL);
@@ -754,7 +762,7 @@ static bool is_command_disable(struct cat_object *self, size_t index)
         assert(index < self->commands_num);
 
         j = 0;
-        for (i = 0; i < self->desc->cmd_group_num; i++) {
+        for (i = 0; i < self->desc->cmd_group_num; i++) CAT_VERIF_LOOP(is_command_disable) {
                 cmd_group = self->desc->cmd_group[i];
 
                 if (index >= j + cmd_group->cmd_num) {
@@ -1071,7 +1079,7 @@ static int parse_int_decimal(struct cat_object *self, int64_t *ret)
         int64_t sign = 0;
         int ok = 0;
 
-        while (1) {
+        while (1) CAT_VERIF_LOOP(parse_int_decimal) {
                 ch = get_atcmd_buf(self)[self->position++];
 
                 if ((ok != 0) && ((ch == 0) || (ch == ','))) {
@@ -1089,6 +1097,7 @@ static int parse_int_decimal(struct cat_object *self, int64_t *ret)
                                 sign = 1;
                                 val = ch - '0';
                                 ok = 1;
+                                CAT_VERIF_GHOST(parse_int_decimal_digit)
                         } else {
                                 return -1;
                         }
@@ -1097,6 +1106,7 @@ static int parse_int_decimal(struct cat_object *self, int64_t *ret)
                                 ok = 1;
                                 val *= 10;
                                 val += ch - '0';
+                                CAT_VERIF_GHOST(parse_int_decimal_digit)
                                 if (val > (int64_t)INT32_MAX + 1)
                                         return -1;
                         } else {
@@ -1117,7 +1127,7 @@ static int parse_uint_decimal(struct cat_object *self, uint64_t *ret)
         uint64_t val = 0;
         int ok = 0;
 
-        while (1) {
+        while (1) CAT_VERIF_LOOP(parse_uint_decimal) {
                 ch = get_atcmd_buf(self)[self->position++];
 
                 if ((ok != 0) && ((ch == 0) || (ch == ','))) {
@@ -1129,6 +1139,7 @@ static int parse_uint_decimal(struct cat_object *self, uint64_t *ret)
                         ok = 1;
                         val *= 10;
                         val += ch - '0';
+                        CAT_VERIF_GHOST(parse_uint_decimal_digit)
                         if (val > UINT32_MAX)
                                 return -1;
                 } else {
@@ -1148,7 +1159,7 @@ static int parse_num_hexadecimal(struct cat_object *self, uint64_t *ret)
         uint64_t val = 0;
         int state = 0;
 
-        while (1) {
+        while (1) CAT_VERIF_LOOP(parse_num_hexadecimal) {
                 ch = get_atcmd_buf(self)[self->position++];
                 ch = to_upper(ch);
 
@@ -1170,6 +1181,7 @@ static int parse_num_hexadecimal(struct cat_object *self, uint64_t *ret)
                                 state = 3;
                                 val <<= 4;
                                 val += convert_hex_char_to_value(ch);
+                                CAT_VERIF_GHOST(parse_num_hexadecimal_digit)
                                 if (val > UINT32_MAX)
                                         return -1;
                         } else {
@@ -1190,7 +1202,7 @@ static int parse_buffer_hexadecimal(struct cat_object *self)
         int state = 0;
         size_t size = 0;
 
-        while (1) {
+        while (1) CAT_VERIF_LOOP(parse_buffer_hexadecimal) {
                 ch = get_atcmd_buf(self)[self->position++];
                 ch = to_upper(ch);
 
@@ -1234,7 +1246,7 @@ static int parse_buffer_string(struct cat_object *self)
         int state = 0;
         size_t size = 0;
 
-        while (1) {
+        while (1) CAT_VERIF_LOOP(parse_buffer_string) {
                 ch = get_atcmd_buf(self)[self->position++];
 
                 switch (state) {
@@ -1256,6 +1268,7 @@ static int parse_buffer_string(struct cat_object *self)
                         }
                         if (size >= self->var->data_size)
                                 return -1;
+                        CAT_VERIF_GHOST(parse_buffer_string_store)
                         if (self->var->access == CAT_VAR_ACCESS_READ_ONLY) {
                                 size++;
                         } else {
@@ -1278,6 +1291,7 @@ static int parse_buffer_string(struct cat_object *self)
                         }
                         if (size >= self->var->data_size)
                                 return -1;
+                        CAT_VERIF_GHOST(parse_buffer_string_store)
                         if (self->var->access == CAT_VAR_ACCESS_READ_ONLY) {
                                 size++;
                         } else {
@@ -1586,7 +1600,7 @@ static int format_buffer_hexadecimal(struct cat_object *self, cat_fsm_type fsm)
         struct cat_variable *var = get_var_by_fsm(self, fsm);
 
         buf = var->data;
-        for (i = 0; i < var->data_size; i++) {
+        for (i = 0; i < var->data_size; i++) CAT_VERIF_LOOP(format_buffer_hexadecimal) {
                 if (var->access == CAT_VAR_ACCESS_WRITE_ONLY) {
                         val = 0;
                 } else {
@@ -1621,7 +1635,7 @@ static int format_buffer_string(struct cat_object *self, cat_fsm_type fsm)
                 return -1;
 
         buf = var->data;
-        for (i = 0; i < buf_size; i++) {
+        for (i = 0; i < buf_size; i++) CAT_VERIF_LOOP(format_buffer_string) {
                 ch = buf[i];
                 if (ch == 0)
                         break;
@@ -2407,7 +2421,7 @@ struct cat_command const* cat_search_command_by_name(struct cat_object *self, co
         assert(self != NULL);
         assert(name != NULL);
 
-        for (i = 0; i < self->commands_num; i++) {
+        for (i = 0; i < self->commands_num; i++) CAT_VERIF_LOOP(cat_search_command_by_name) {
                 cmd = get_command_by_index(self, i);
                 if (strcmp(cmd->name, name) == 0)
                         return cmd;
@@ -2424,7 +2438,7 @@ struct cat_command_group const* cat_search_command_group_by_name(struct cat_obje
         assert(self != NULL);
         assert(name != NULL);
 
-        for (i = 0; i < self->desc->cmd_group_num; i++) {
+        for (i = 0; i < self->desc->cmd_group_num; i++) CAT_VERIF_LOOP(cat_search_command_group_by_name) {
                 cmd_group = self->desc->cmd_group[i];
                 if ((cmd_group->name != NULL) && (strcmp(cmd_group->name, name) == 0))
                         return cmd_group;
@@ -2443,7 +2457,7 @@ struct cat_variable const* cat_search_variable_by_name(struct cat_object *self, 
         assert(cmd != NULL);
         assert(name != NULL);
 
-        for (i = 0; i < cmd->var_num; i++) {
+        for (i = 0; i < cmd->var_num; i++) CAT_VERIF_LOOP(cat_search_variable_by_name) {
                 var = &cmd->var[i];
                 if ((var->name != NULL) && (strcmp(var->name, name) == 0))
                         return var;
